@@ -17,9 +17,9 @@ def upper (b : UInt8) : UInt8 := if 97 ≤ b.toNat ∧ b.toNat ≤ 122 then UInt
 /-- a header line as the protocol reads it: CR removed, split at the first colon, key upper-cased -/
 def header (line : Bytes) : Option (Bytes × Bytes) :=
   let l := line.filter (· != 13)
-  match l.span (· != 58) with
-  | (_, []) => none
-  | (k, _ :: v) => some (k.map upper, v)
+  match l.dropWhile (· != 58) with
+  | [] => none
+  | _ :: v => some ((l.takeWhile (· != 58)).map upper, v)
 
 /-! ## C27 -/
 
@@ -28,7 +28,7 @@ def presentsToken (lines : List Bytes) (t : Bytes) : Bool :=
   lines.any fun l => header l == some (asciiBytes "TOKEN", t)
 
 /-- the authentication error of the control plane -/
-def isAuthError (success : Bool) (code : String) : Bool := !success && code.endsWith "_UNAUTHENTICATED"
+def isAuthError (success : Bool) (code : String) : Bool := !success && ("_UNAUTHENTICATED".toList).isSuffixOf code.toList
 
 /-! ## C28 -/
 
